@@ -83,7 +83,7 @@ SubPairs == { <<"a.h0.test", "h0.test">>, <<"b.a.h0.test", "h0.test">>,
               <<"b.a.h0.test", "test">>, <<"xh0.test", "test">>, <<"other.test", "test">>,
               <<"evil.test", "test">>, <<"h0.test.evil.test", "test">>,
               <<"h0.test.evil.test", "evil.test">>, <<"h0.test.a.evil.test", "test">>,
-              <<"h0.test.a.evil.test", "evil.test">> }
+              <<"h0.test.a.evil.test", "evil.test">>, <<"x.a.h0.te", "a.h0.te">> }
 
 \* C20's trust relation: the initial host or one of its subdomains
 Trusted(initId, tgtId) ==
